@@ -154,6 +154,36 @@ func RunKeyFile(c *Ctx) error {
 			}
 			c.Tr.Emit("KExport", world.F{"ok": ok, "same": same, "where": "fresh-dir"})
 		}()
+		// the same key handed to import in the long (seed + public key + public key) form that the key library also
+		// accepts: the file must load with its passphrase to the same key, and its export must import again
+		func() {
+			defer func() {
+				if p := recover(); p != nil {
+					c.Tr.Emit("Panic", world.F{"node": "key", "where": "import-long-form", "msg": trunc(fmt.Sprint(p))})
+				}
+			}()
+			raw, err := filesigner.ExportPrivateKey(d, append([]byte(nil), pass...))
+			if err != nil || len(raw) != 64 {
+				return
+			}
+			long := append(append([]byte(nil), raw...), raw[32:]...)
+			if _, e := crypto.UnmarshalEd25519PrivateKey(append([]byte(nil), long...)); e != nil {
+				return // the library does not take this form: nothing to check
+			}
+			d4 := filepath.Join(dir, fmt.Sprintf("long%d", fi))
+			ok := filesigner.ImportPrivateKey(d4, long, []byte("long form passphrase")) == nil
+			same := false
+			if ok {
+				if s4, e := filesigner.LoadFileSystemSigner(d4, []byte("long form passphrase")); e == nil {
+					p4, _ := s4.GetPublic()
+					same = p4.Equals(origPub)
+				}
+			}
+			c.Tr.Emit("KExport", world.F{"ok": ok, "same": same, "where": "long-form"})
+			if ok && same {
+				importOver(c, d4, filepath.Join(dir, fmt.Sprintf("long%d-again", fi)), []byte("long form passphrase"), origPub, "long-form-again")
+			}
+		}()
 		// export, then import over what already sits at the destination
 		importOver(c, d, d, pass, origPub, "in-place")
 		os.WriteFile(path, orig, 0o600)
